@@ -399,3 +399,141 @@ def _owner_func(n):
         if isinstance(p, (ast.FunctionDef, ast.AsyncFunctionDef, ast.Lambda)):
             return p
     return None
+
+
+# ------------------------------------------------------------------------------------------------
+# contradiction lints on the Python layer
+
+PY_MODULES_ALL = ["_util.py", "highlevel.py", "partition.py", "operations/structure.py", "operations/convert.py", "operations/reducers.py", "operations/describe.py",
+                  "behaviors/string.py", "behaviors/categorical.py", "behaviors/mixins.py", "_connect/_numpy.py", "_connect/_numba/arrayview.py", "_connect/_numba/layout.py",
+                  "_connect/_numba/builder.py", "_connect/_numexpr.py", "_connect/_autograd.py", "_connect/_jax/jax_utils.py", "nplike.py", "forms.py", "types.py"]
+
+
+def _py_terminates(stmts):
+    if not stmts:
+        return False
+    s = stmts[-1]
+    if isinstance(s, (ast.Return, ast.Raise, ast.Continue, ast.Break)):
+        return True
+    if isinstance(s, ast.If):
+        return bool(s.orelse) and _py_terminates(s.body) and _py_terminates(s.orelse)
+    if isinstance(s, ast.With):
+        return _py_terminates(s.body)
+    return False
+
+
+def rule_py_unreachable(rep, modules=None, floor=400):
+    r = rep.rule("DEAD.py-unreachable", "no statement of the Python layer follows, in the same block, a statement after which control cannot continue (return / raise / an if-else that leaves on both sides): "
+                 "an unreachable statement is the behaviour the author meant and the code does not have", floor=floor)
+    import os
+    for rel in (modules or [x for x in pf.all_modules() if "generated_parser" not in x]):
+        m = pf.module(rel)
+        for q, f in sorted(m.funcs.items()):
+            bad = None
+            for node in ast.walk(f):
+                if _owner_func(node) is not f and node is not f:
+                    continue
+                for field in ("body", "orelse", "finalbody"):
+                    blk = getattr(node, field, None)
+                    if not isinstance(blk, list):
+                        continue
+                    for i in range(len(blk) - 1):
+                        if _py_terminates(blk[:i + 1]):
+                            bad = blk[i + 1]
+                            break
+            if bad is None:
+                r.ok("%s:%s" % (rel, q))
+            else:
+                r.fail("%s:%s" % (rel, q), m.where(bad), "%s in %s: the statement `%s` can never execute (the statement before it leaves the block on every path)" % (q, rel, ast.unparse(bad)[:80]))
+    return r.done()
+
+
+def rule_py_callback_layout(rep, modules=None, floor=25):
+    r = rep.rule("FORWARD.py-callback-layout", "a getfunction callback handed to ak._util.recursively_apply returns `lambda: <layout>`: recursively_apply splices the lambda's result into the layout tree as it is, "
+                 "so its body is never a bare NumPy expression (arithmetic, nplike.*/numpy.* call) - those must be wrapped in ak.layout.NumpyArray", floor=floor)
+    for rel in (modules or [x for x in pf.all_modules() if "generated_parser" not in x]):
+        m = pf.module(rel)
+        cbs = set()
+        for n in ast.walk(m.tree):
+            if isinstance(n, ast.Call) and isinstance(n.func, ast.Attribute) and n.func.attr == "recursively_apply" and len(n.args) >= 2 and isinstance(n.args[1], ast.Name):
+                cbs.add(n.args[1].id)
+        for q, f in sorted(m.funcs.items()):
+            if f.name not in cbs:
+                continue
+            k = 0
+            for ret in ast.walk(f):
+                if not (isinstance(ret, ast.Return) and isinstance(ret.value, ast.Lambda)) or _owner_func(ret) is not f:
+                    continue
+                k += 1
+                b = ret.value.body
+                bare = isinstance(b, (ast.BinOp, ast.UnaryOp, ast.Compare)) or (isinstance(b, ast.Call) and re.match(r"^(nplike|numpy|np|ak\.nplike\.\w+)\.", ast.unparse(b.func)))
+                r.check(not bare, "%s:%s#lambda%d" % (rel, q, k), m.where(ret), "%s in %s returns `lambda: %s` to recursively_apply: a bare NumPy value is spliced into the layout tree" % (q, rel, ast.unparse(b)[:70]),
+                        detail="lambda yields a layout")
+    return r.done()
+
+
+def rule_py_call_signature(rep, floor=900):
+    r = rep.rule("FORWARD.py-call-signature", "every call inside src/awkward that resolves statically to a module-level function of the package (same-module name, ak._util.f, ak.operations.<m>.f, ak.nplike.f, "
+                 "ak.partition.f, or an exported ak.f defined once under operations/) matches that function's signature: no unknown keyword, no surplus positional argument, no missing required parameter", floor=floor)
+    mods = {rel: pf.module(rel) for rel in pf.all_modules() if "generated_parser" not in rel}
+    sigs, byname = {}, {}
+    for rel, m in mods.items():
+        for n in m.tree.body:
+            if isinstance(n, ast.FunctionDef):
+                sigs[(rel, n.name)] = n
+                byname.setdefault(n.name, []).append((rel, n))
+
+    def mismatch(call, fd):
+        a = fd.args
+        names = [x.arg for x in getattr(a, "posonlyargs", []) + a.args]
+        kwonly = [x.arg for x in a.kwonlyargs]
+        if any(isinstance(x, ast.Starred) for x in call.args) or any(k.arg is None for k in call.keywords):
+            return None
+        npos = len(call.args)
+        if npos > len(names) and not a.vararg:
+            return "%d positional arguments for %d parameters" % (npos, len(names))
+        for k in call.keywords:
+            if k.arg not in names + kwonly and not a.kwarg:
+                return "unknown keyword '%s'" % k.arg
+            if k.arg in names[:npos]:
+                return "keyword '%s' also given positionally" % k.arg
+        nreq = len(names) - len(a.defaults)
+        given = set(names[:npos]) | {k.arg for k in call.keywords}
+        missing = [x for x in names[:nreq] if x not in given]
+        if missing:
+            return "missing required %s" % missing
+        return None
+    cnt = {}
+    for rel, m in sorted(mods.items()):
+        for call in ast.walk(m.tree):
+            if not isinstance(call, ast.Call):
+                continue
+            f = call.func
+            target = None
+            if isinstance(f, ast.Name) and (rel, f.id) in sigs:
+                target = sigs[(rel, f.id)]
+            elif isinstance(f, ast.Attribute):
+                parts = pf.dotted(f).split(".") if pf.dotted(f) else []
+                if parts and parts[0] == "ak" and len(parts) >= 2:
+                    name = parts[-1]
+                    cands = []
+                    if parts[1] == "_util" and len(parts) == 3:
+                        cands = [sigs.get(("_util.py", name))]
+                    elif parts[1] == "operations" and len(parts) == 4:
+                        cands = [sigs.get(("operations/%s.py" % parts[2], name))]
+                    elif parts[1] in ("nplike", "partition") and len(parts) == 3:
+                        cands = [sigs.get(("%s.py" % parts[1], name))]
+                    elif len(parts) == 2:
+                        c = [n for r0, n in byname.get(name, []) if r0.startswith("operations/")]
+                        cands = c if len(c) == 1 else []
+                    cands = [c for c in cands if c is not None]
+                    if len(cands) == 1:
+                        target = cands[0]
+            if target is None:
+                continue
+            k0 = (rel, target.name)
+            cnt[k0] = cnt.get(k0, 0) + 1
+            key = "%s->%s#%d" % (rel, target.name, cnt[k0])
+            msg = mismatch(call, target)
+            r.check(msg is None, key, m.where(call), "call `%s(...)` in %s does not match the definition of %s: %s" % (ast.unparse(call.func), rel, target.name, msg), detail="signature matches")
+    return r.done()
